@@ -232,8 +232,9 @@ WEIGHTS = {
   'movepage': 2, 'displaycol': 5, 'displayfield': 4, 'cleardisplay': 3, 'addrule': 5, 'droprule': 3,
   'rmfield': 3, 'addfield': 2, 'customsection': 1, 'detach': 1, 'rmhelper': 1, 'rmtablerec': 1, 'rmcolrec': 2,
   'hiddencol': 1, 'linksection': 2, 'dupfield': 0,
+  'refsummary': 4, 'setvisible': 4, 'showcol': 4, 'rulecross': 1, 'rmlastwidget': 4,
 }
-RAW_WRITES = ('linksection', 'addfield', 'dupfield', 'droprule', 'movepage')
+RAW_WRITES = ('linksection', 'addfield', 'dupfield', 'droprule', 'movepage', 'setvisible')
 
 
 def make_gen(rng, weights=None):
@@ -400,6 +401,51 @@ def make_gen(rng, weights=None):
         return ['UpdateRecord', '_grist_Views_section', a['id'],
                 {'linkSrcSectionRef': b['id'], 'linkSrcColRef': r.choice(cb)['id'] if cb and r.random() < 0.5 else 0,
                  'linkTargetColRef': r.choice(ca)['id'] if ca and r.random() < 0.5 else 0}]
+      # reference columns whose target is a SUMMARY table, with show column / display helper / rules: removing
+      # the summary table (last widget, source table, group-by column) then needs several auto-removal rounds
+      summ = [t for t in tabs if t['summarySource']]
+      refcols = [c for c in vis if c['type'].split(':')[0] in ('Ref', 'RefList') and
+                 c['type'].split(':', 1)[1] in [t['name'] for t in tabs]]
+      if kind == 'refsummary':
+        plain = [t for t in tabs if not t['summarySource']]
+        if not summ or not plain:
+          return None
+        return ['AddColumn', r.choice(plain)['name'], r.choice(['sref', 'sref2', 'grp']),
+                {'type': r.choice(['Ref:', 'Ref:', 'RefList:']) + r.choice(summ)['name'], 'isFormula': False}]
+      if kind == 'setvisible':
+        pool = [c for c in refcols if c['type'].split(':', 1)[1] in [t['name'] for t in summ]] or refcols
+        if not pool:
+          return None
+        c = r.choice(pool)
+        tgt = [t for t in tabs if t['name'] == c['type'].split(':', 1)[1]][0]
+        tv = [x for x in vis if x['parent'] == tgt['id']]
+        if not tv:
+          return None
+        return ['UpdateRecord', '_grist_Tables_column', c['id'], {'visibleCol': r.choice(tv)['id']}]
+      if kind == 'showcol':
+        pool = [c for c in refcols if c['visible']]
+        if not pool:
+          return None
+        c = r.choice(pool)
+        vc = [x for x in cols if x['id'] == c['visible']]
+        if not vc:
+          return None
+        return ['SetDisplayFormula', tname[c['parent']], None, c['id'], '$%s.%s' % (c['colId'], vc[0]['colId'])]
+      if kind == 'rulecross':
+        sc = [c for c in vis if c['parent'] in [t['id'] for t in summ]]
+        plain = [t for t in tabs if not t['summarySource']]
+        if not sc or not plain:
+          return None
+        return ['AddEmptyRule', r.choice(plain)['name'], 0, r.choice(sc)['id']]
+      if kind == 'rmlastwidget':
+        cand = []
+        for t in summ:
+          ss = [s for s in secs if s['table'] == t['id'] and s['id'] != t['raw']]
+          if len(ss) == 1:
+            cand.append(ss[0])
+        if not cand:
+          return None
+        return ['RemoveViewSection', r.choice(cand)['id']]
       if not tabs:
         return None if kind != 'addtable' else histgen.HistGen.gen(self, kind, meta)
       return histgen.HistGen.gen(self, kind, meta)
@@ -415,7 +461,17 @@ def make_gen(rng, weights=None):
   w = dict(WEIGHTS)
   if weights:
     w.update(weights)
-  return Gen(rng, weights=w, max_tables=4)
+  gen = Gen(rng, weights=w, max_tables=4)
+  gen.applied = []            # the bundles init_doc applied, so that recorded histories replay from a new document
+  base_do = gen._do
+
+  def _do(e, bundle):
+    out = base_do(e, bundle)
+    if out is not None:
+      gen.applied.append(copy.deepcopy(bundle))
+    return out
+  gen._do = _do
+  return gen
 
 
 # ------------------------------------------------------------------------------------------------
@@ -563,8 +619,11 @@ class Recorder(object):
     def apply_auto_removes(dm):
       if rec.snaps is not None and rec.mid is None:
         rec.mid = projection(dm._engine)
+      # rounds that remove column or table records (summary rows, filters, comment cells are marked too)
+      marked = [x for x in getattr(dm, '_auto_remove_set', ())
+                if x._table.table_id in ('_grist_Tables', '_grist_Tables_column')]
       ret = rec.o_ar(dm)
-      if ret and rec.snaps is not None:
+      if ret and marked and rec.snaps is not None:
         rec.rounds += 1
       return ret
 
@@ -628,6 +687,13 @@ def next_id(ids):
 def translate(a, P, Q, names, rgs=()):
   name = a[0]
   T = {t['name']: t for t in P['tables']}
+  # a column may be typed Ref:X for a table X that does not exist (the engine accepts it); the table a type
+  # refers to is found by name, so when the set of table names changes in such a document the projection of
+  # that column changes without any metadata write: outside the model
+  if set(T) != set(t['name'] for t in Q['tables']) and \
+     any(c['type'].split(':')[0] in ('Ref', 'RefList') and ':' in c['type'] and c['type'].split(':', 1)[1] not in T
+         for c in P['columns']):
+    return UNMODELLED
   if rgs:
     ds = [regroup_of(g, names) for g in rgs]
     if any(d is None for d in ds):
@@ -803,9 +869,12 @@ def run_histories(ctx, nhist, nb, weights=None, seed_base=0):
       gen = make_gen(rng, weights)
       e, _ = g.new_doc()
       gen.init_doc(e)
-      hist = []
+      hist = list(gen.applied)
+      last = None
       for b in range(nb):
         bundle = gen.bundle(e)
+        if last is None:
+          last = projection(e)
         try:
           _, snaps, mid, final = rec.run(e, copy.deepcopy(bundle))
         except core.TieBroken:
@@ -813,7 +882,15 @@ def run_histories(ctx, nhist, nb, weights=None, seed_base=0):
         except Exception:
           ctx.bump('bundles failed')
           g.clean(e)
+          hist.append(bundle)       # failed bundles stay in the history: replay_history replays them the same way
+          if projection(e) != last:
+            # a bundle that failed after its user actions (in the auto-removal phase, which the engine does not
+            # roll back; here: ConvertFromColumn needs the JS side) left part of its changes: the document is
+            # not the result of successful bundles any more (the subject of C04), the history ends
+            ctx.bump('histories ended by a failed bundle that was not rolled back')
+            break
           continue
+        last = final
         gen.after_bundle(e)
         hist.append(bundle)
         out.append(dict(history=list(hist), bundle=bundle, snaps=snaps, mid=mid, final=final,
@@ -1024,6 +1101,28 @@ def small_scope(ctx):
   return out
 
 
+# a table N with a reference column g (column 9) to the SUMMARY table T_summary_B, showing its column B (4)
+# through a display helper (column 10): when the summary table goes, g is converted and the helper loses its
+# user only after the first round of auto-removals
+REF_DOC = BASE_DOC + [
+  [['AddTable', 'N', [{'id': 'X', 'type': 'Text'}, {'id': 'g', 'type': 'Ref:T_summary_B'}]]],
+  [['UpdateRecord', '_grist_Tables_column', 9, {'visibleCol': 4}], ['SetDisplayFormula', 'N', None, 9, '$g.B']]]
+TARGETED += [
+  REF_DOC + [[['RemoveViewSection', 5]]],
+  REF_DOC + [[['RemoveColumn', 'T', 'B']]],
+  REF_DOC + [[['RemoveTable', 'T']]],
+  REF_DOC + [[['RemoveView', 2]]],
+  REF_DOC + [[['RemoveColumn', 'T', 'B'], ['AddColumn', 'N', 'Z', {'type': 'Int', 'isFormula': False}]]],
+  REF_DOC + [[['AddEmptyRule', 'N', 0, 9]], [['RemoveViewSection', 5]]],
+  REF_DOC + [[['AddEmptyRule', 'N', 0, 4]], [['RemoveViewSection', 5]]],
+  REF_DOC + [[['AddEmptyRule', 'N', 0, 4], ['AddEmptyRule', 'N', 0, 9]], [['UpdateSummaryViewSection', 5, []]]],
+  BASE_DOC + [[['AddTable', 'N', [{'id': 'X', 'type': 'Text'}, {'id': 'g', 'type': 'RefList:T_summary_B'}]]],
+              [['SetDisplayFormula', 'N', None, 9, '$g.B']], [['RemoveViewSection', 5]]],
+  BASE_DOC + [[['AddTable', 'N', [{'id': 'X', 'type': 'Text'}, {'id': 'g', 'type': 'Ref:T_summary_B'}]]],
+              [['SetDisplayFormula', 'N', None, 9, '$g.B']], [['RemoveViewSection', 5]]],
+]
+
+
 def regroup_defects(r):
   """Which of the two known defects of update_summary_section calls occurred in this bundle."""
   out = set()
@@ -1050,20 +1149,25 @@ def classify(r, issues):
 
 
 def replay_history(history, rec=None):
-  """Runs the bundles from a new document; returns the record of the last bundle (None if a bundle fails)."""
+  """Runs the bundles from a new document (a failing bundle is followed by Calculate, as when the history was
+  generated); returns the record of the last bundle (None if that one fails)."""
   g = G()
   own = rec is None
   rec = rec or Recorder()
   try:
     e, _ = g.new_doc()
     r = None
-    for b in history:
+    for k, b in enumerate(history):
       try:
         _, snaps, mid, final = rec.run(e, copy.deepcopy(b))
       except core.TieBroken:
         raise
       except Exception:
-        return None
+        if k == len(history) - 1:
+          return None
+        g.clean(e)
+        r = None
+        continue
       r = dict(history=history, bundle=b, snaps=snaps, mid=mid, final=final, regroups=rec.last_regroups,
                rounds=rec.last_rounds)
     return r
